@@ -547,8 +547,8 @@ def eulernum(m, _cache={0:MPZ_ONE}):
         suma = 0
         for k in range(n+1, -1, -2):
             suma += a[k+1]
-            if n <= MAX:
-                _cache[n] = ((-1)**(n//2))*(suma // 2**n)
+        if n <= MAX:
+            _cache[n] = ((-1)**(n//2))*(suma // 2**n)
         if n == m:
             return ((-1)**(n//2))*suma // 2**n
 
